@@ -92,6 +92,12 @@ def make_serde(name):
 VALUES_OBJ = [b"bytes\r\nEND\r\n", "text \xe9€", 0, -7, 2 ** 70, True, None, 3.5, (1, "a", b"b"), {"k": [1, 2, {"z": b"\r\n"}]}, b"x" * 5000, "y" * 5000, [], frozenset([1, 2])]
 
 
+def subclass_values():
+    """instances of str/int/bytes subclasses: pickle and compressed serializers must give the same type back"""
+    from harness.props.C15 import MyStr, MyInt, MyBytes
+    return [MyStr("subclassed text"), MyStr(""), MyInt(7), MyBytes(b"sub\r\nbytes")]
+
+
 def expected_back(serde_name, enc, v):
     """what C04 promises comes back"""
     if serde_name == "none":
@@ -124,8 +130,8 @@ def roundtrip(stack, c, serde_name, key, value, chunks, coll):
         if got != want or type(got) is not type(want):
             return "get returned %r (%s), stored %r (%s)" % (repr(got)[:80], type(got).__name__, repr(want)[:80], type(want).__name__)
         g2 = cl.gets(key)
-        if g2[0] != want:
-            return "gets returned %r" % (repr(g2)[:100],)
+        if g2[0] != want or type(g2[0]) is not type(want):
+            return "gets returned %r (%s), stored %s" % (repr(g2)[:100], type(g2[0]).__name__, type(want).__name__)
         ks = [other, key, b"absent"]
         arg = {"list": lambda: list(ks), "tuple": lambda: tuple(ks), "set": lambda: set(ks), "dict_keys": lambda: dict.fromkeys(ks).keys(),
                "iterator": lambda: iter(list(ks)), "generator": lambda: (k for k in ks)}[coll]()
@@ -164,6 +170,13 @@ def rt_cases(ctx):
             out.append(("Client", dict(tcp=False, prefix=b"p:", unicode=True, enc=1, default_noreply=False, ignore_exc=False), "none", key, b"v\r\nEND\r\n", [1] * 30, coll))
     if ctx.quick:
         out = out[::2]
+    for serde_name in SERDES:
+        if serde_name in ("none", "custom"):
+            continue
+        for v in subclass_values():
+            for stack in ("Client", "PooledClient", "HashClient"):
+                c = dict(tcp=False, prefix=rng.choice([b"", b"p:"]), unicode=True, enc=rng.choice([0, 1]), default_noreply=False, ignore_exc=False)
+                out.append((stack, c, serde_name, rng.choice(KEYS), v, [rng.choice([1, 7, 4096]) for _ in range(20)], "list"))
     return out
 
 
